@@ -1,7 +1,7 @@
 CONSTANTS
   HashMode = "real"
   Bug = "none"
-  Sweeps = {"small", "hsmall", "xsmall", "ssmall"}
+  Sweeps = {"small", "hsmall", "xsmall", "ssmall", "ksmall"}
   PairDepth = 2
   NearDepth = 2
   DeepDepth = 3
